@@ -24,7 +24,7 @@ template <typename IntegralN, typename IntegralK>
 static constexpr auto round_up(const IntegralN& n,
                                const IntegralK& k) -> decltype(n + k)
 {
-    return ((n + k - 1) / k) * k;
+    return (n / k + (n % k > 0)) * k;
 }
 
 //! \}
